@@ -56,6 +56,7 @@ func init() {
 			"probe_found", "probe_notfound", "probe_stream_multi", "probe_dual_both_sides_answered", "probe_local_valid", "probe_local_expired", "probe_local_expired_midsearch", "probe_peer_serves_local_bytes_valid", "probe_peer_serves_local_bytes_expired_at_start", "probe_peer_serves_local_bytes_expired_midsearch",
 			"probe_opt_offline", "probe_opt_expired", "probe_opt_offline_local_not_valid", "probe_local_never_valid", "probe_local_outlived_max_age", "probe_stamp_valid_value_held_past_requesters_max_age", "probe_stamp_valid_value_from_the_future", "probe_stamp_valid_value_unparsable",
 			"probe_key_outside_namespaces", "probe_key_outside_record_acceptable_to_unregistered_validator", "probe_key_outside_local_record", "probe_no_starting_points", "probe_no_starting_points_local_valid",
+			"probe_ns_configured_in_place_of_shipped_pk", "probe_ns_configured_in_place_of_shipped_ipns", "probe_ns_configured_in_place_of_shipped_local_record", "probe_ns_record_acceptable_to_shipped_validator_only", "probe_ns_local_record_acceptable_to_shipped_validator_only",
 			"probe_dual_local_bestknown_checked", "probe_dual_local_valid_lan_table_empty", "probe_dual_local_valid_lan_table_empty_wan_peers_present"},
 	})
 }
@@ -73,7 +74,7 @@ func c04BuildDual(w *c04World) error {
 	s := w.s
 	w.host = simhost.New(s, w.u.Self.ID, w.u.Self.Addrs, w.u.Name)
 	dsWan, dsLan := simds.New(s, "ds-wan"), simds.New(s, "ds-lan")
-	common := append(c04Opts(w.clientValidator(), w.cfg.MaxAge),
+	common := append(c04Opts(w.clientValidator(), w.cfg),
 		dht.Mode(dht.ModeClient),
 		dht.BucketSize(w.cfg.K),
 		dht.Concurrency(w.cfg.Alpha),
